@@ -44,6 +44,7 @@ type Item struct {
 	SampleEvery int               `json:"sample_every"`
 	MaxViol     int               `json:"max_viol"`
 	TimeLimitS  int               `json:"time_limit_s"`
+	OnlyPrefix  string            `json:"only_prefix"`
 }
 
 var pkgClause = regexp.MustCompile(`(?m)^package\s+\w+`)
@@ -204,6 +205,7 @@ func (e *Engine) runItem(base *State, it Item) (res *ItemResult) {
 	e.maxDepth = 200
 	e.symMapOrder = it.MapOrder
 	e.noPanic = it.NoPanic
+	e.onlyPrefix = it.OnlyPrefix
 	e.knownOpen = map[string]bool{}
 	for _, k := range it.KnownOpen {
 		e.knownOpen[k] = true
